@@ -135,6 +135,12 @@ def error_path(ctx, count):
                     raised = exc
                 except SystemExit as exc:
                     raised = exc
+                except Exception as exc:  # anything else (e.g. the run went on to write) is reported below
+                    raised = exc
+                if (d / "not-yet-there").exists():
+                    import shutil
+                    shutil.rmtree(d / "not-yet-there")
+                    before_listing = None
                 ctx.evaluations += 1
                 case = dict(flag=kind_flag, data=enc_bytes(data), via="Lithium.main")
                 if not isinstance(raised, LithiumError):
